@@ -18,6 +18,7 @@ import re
 from sa.interp import Interp, Scenario, Sym, Const, render
 from sa.loader import AnalysisError
 from sa import regexast, sigdata
+from sa.sigdata import implied_atoms
 from sa import strterm as T
 from rules.C10 import (_const_regex, armor_tree, flags_of, unarmor_call, verdict_for_label, _receiver, _own_params, _returned_entry,   # noqa: F401
                        _ascii_oracle, _consumes, require_traceable_label, _stored_entry, _is_group_ref)
@@ -49,6 +50,11 @@ def substitution(node):
         if not all(n in kw for n in names[:3]):
             return None
         p, r = kw['pattern'], kw['repl']
+        if isinstance(r, ast.Lambda):
+            tmpl = callable_as_template(r)
+            if tmpl is None:
+                return None
+            r = ast.Constant(value=tmpl)
         if not (isinstance(p, ast.Constant) and isinstance(p.value, (str, bytes)) and isinstance(r, ast.Constant) and isinstance(r.value, (str, bytes))):
             return None
         cnt = kw.get('count')
@@ -59,6 +65,23 @@ def substitution(node):
             all(isinstance(x, ast.Constant) for x in node.args):
         return ('replace', node.args[0].value, node.args[1].value, node.func.value)
     return None
+
+
+def callable_as_template(lam):
+    """A replacement given as `lambda m: <literals and the match itself>` (m.group(0) / m.group() / m[0]) is the replacement template with
+    \\g<0> for the match: the template text, or None if the function does anything else with the match."""
+    if not (isinstance(lam, ast.Lambda) and len(lam.args.args) == 1 and not lam.args.defaults and not lam.args.kwonlyargs):
+        return None
+    m = lam.args.args[0].arg
+    out = ''
+    for piece in T.pieces(lam.body):
+        if piece[0] == 'L':
+            out += piece[1].replace('\\', '\\\\')
+        elif piece[0] == 'V' and T.show(piece[1]) in ('%s.group(0)' % m, '%s.group()' % m, '%s[0]' % m):
+            out += '\\g<0>'
+        else:
+            return None
+    return out
 
 
 def _words(seq, limit=16):
@@ -255,8 +278,23 @@ def _returned_substitution(prog, fn):
     if len(ps) != 1:
         raise AnalysisError('%s: expected one text parameter' % fn.qualname)
     subs = []
+    shortcuts = []
     for s in Interp(prog, Scenario(inline=noinline)).run(fn):
         if s.raised is not None:
+            continue
+        if render(s.ret) == ps[0]:
+            # a path that hands the text back untouched (fast path): under which decided condition?
+            absent = set()
+            for t, val, sk in s.facts:
+                for a, truth in implied_atoms(sk, val):
+                    if a[0] == 'cmp' and a[3] == ps[0] and ((a[1] == 'not in' and truth) or (a[1] == 'in' and not truth)):
+                        try:
+                            lit = ast.literal_eval(a[2])
+                        except Exception:
+                            continue
+                        if isinstance(lit, str):
+                            absent.add(lit)
+            shortcuts.append((sorted(absent), [t for t, val, sk in s.facts]))
             continue
         sub = substitution(render(s.ret)) or line_map(render(s.ret), s.calls)
         if sub is None:
@@ -264,7 +302,19 @@ def _returned_substitution(prog, fn):
         subs.append(sub[:-1] + (T.show(sub[-1]) == ps[0], T.show(sub[-1])))
     if not subs or any(x != subs[0] for x in subs):
         raise AnalysisError('%s: paths disagree about the substitution' % fn.qualname)
-    return subs[0]
+    return subs[0], shortcuts
+
+
+def _check_shortcuts(rep, fn, shortcuts, rw):
+    """A path that returns the text untouched is the substitution itself only where the substitution has nothing to do: the decided
+    condition must be that a string which every rewritten line start contains does not occur anywhere in the text."""
+    words = sorted(set(c + l for c, l, _ in rw['cases'])) if rw and rw.get('cases') else None
+    for absent, facts in shortcuts:
+        ok = words is not None and any(lit != '' and all(lit in w for w in words) for lit in absent)
+        rep.check(ok, 'C11.1', 'PGPMessage.%s' % fn.name, 'text returned untouched when %s' % (' and '.join('%r not in text' % a for a in absent) or facts[-1:]),
+                  'a shortcut that skips the rewrite must be taken only when no line can need it (the trigger string occurs nowhere in the text); '
+                  'a weaker test (first character only, another string) leaves lines unescaped / escaped', where=fn.where,
+                  expected='%r not in text' % (words[0] if words else '-'), found=[f[:100] for f in facts])
 
 
 def dash_pair(rep, prog, M):
@@ -274,7 +324,8 @@ def dash_pair(rep, prog, M):
         raise AnalysisError('PGPMessage.dash_escape / dash_unescape vanished')
     rep.saw(fn=esc)
     rep.saw(fn=une)
-    e, u = _returned_substitution(prog, esc), _returned_substitution(prog, une)
+    (e, e_short), (u, u_short) = _returned_substitution(prog, esc), _returned_substitution(prog, une)
+    shortcuts = [(esc, e_short), (une, u_short)]
     for fn, sub in ((esc, e), (une, u)):
         rep.check(sub[-2], 'C11.1', 'PGPMessage.%s' % fn.name, 'applied to %s' % sub[-1], 'the substitution must run over the text that was passed in, unchanged',
                   where=fn.where, expected=_own_params(fn)[0], found=sub[-1])
@@ -305,6 +356,7 @@ def dash_pair(rep, prog, M):
     starts = sorted(set(c + l for c, l, _ in rw['cases'])) if rw else None
     rep.check(starts == ['-'], 'C11.1', 'PGPMessage.dash_escape', 'escapes lines starting with %r' % (starts,),
               'every line starting with a dash must be escaped (RFC 4880 7.1 MUST)', where=esc.where, expected='-', found=starts)
+    _check_shortcuts(rep, esc, e_short, rw)
     inserted = None
     if rw:
         ins = set()
@@ -323,6 +375,7 @@ def dash_pair(rep, prog, M):
         rwu, shown_u = (line_start_rewrite(pu, ru, fu) if u[0] == 're' else None), 'pattern %r flags %d' % (pu, fu)
     rep.check(rwu is not None and rwu['every_line'], 'C11.1', 'PGPMessage.dash_unescape', shown_u,
               'unescaping must look at the start of EVERY line (^ with MULTILINE)', where=une.where)
+    _check_shortcuts(rep, une, u_short, rwu)
     removed = None
     if rwu and all(l == '' and out == '' for c, l, out in rwu['cases']):
         cs = sorted(set(c for c, l, out in rwu['cases']))
